@@ -84,6 +84,7 @@ type Universe struct {
 	axioms   []string // global axioms (assumed in every obligation), with provenance
 	axiomSrc []string
 	wfDone   map[string]bool
+	inProgress map[string]bool
 }
 
 func NewUniverse() *Universe {
@@ -336,11 +337,19 @@ func shortPkg(path string) string {
 }
 
 func (u *Universe) structSort(name string, st *types.Struct) *Sort {
+	if u.inProgress[name] {
+		oos("recursive type %s", name)
+	}
 	if s, ok := u.sorts[name]; ok {
 		return s
 	}
 	s := &Sort{Kind: KData, Name: name}
-	u.sorts[name] = s // pre-register (recursive types are out of subset anyway)
+	u.sorts[name] = s
+	if u.inProgress == nil {
+		u.inProgress = map[string]bool{}
+	}
+	u.inProgress[name] = true
+	defer delete(u.inProgress, name)
 	var fs []string
 	for i := 0; i < st.NumFields(); i++ {
 		f := st.Field(i)
